@@ -255,11 +255,6 @@ def decodeItem (bs : Bytes) : Option (Item × Bytes) :=
     match takeLE 2 bs with
     | none => none
     | some (len, bs) =>
-      if len ≠ 0 ∧ !(recognised ty) then
-        -- quirk: the parser for an unrecognised item type is not limited to the item's length: it takes
-        -- everything that follows (so such an item is only parseable in last position)
-        (if bs.length < len then none else some ({ typeId := ty, body := .raw bs }, []))
-      else
       match takeN len bs with
       | none => none
       | some (body, rest) => (decodeItemBody ty body).map fun b => ({ typeId := ty, body := b }, rest)
